@@ -118,9 +118,14 @@ CLAIMED = {
              'without the last-ops ring, run_measured_loop) in every storage mode (flat, hybrid with a symbolic flat window, paged with '
              'the page-cache contract model) is proved equal to the same reference step pyspec that C01 proves the Python engines equal '
              'to - so all engines and storage modes agree op by op on outputs, reads, cause, fault address, op count, last-ops ring and '
-             'memory.',
+             'memory. The representation invariant those harnesses assume is an obligation on the code that builds the storage: '
+             'mem_decide_storage (symbolic unsorted segments, symbolic window limit, a real page table with loaded pages) is proved to '
+             'produce flat_count / flat_covers_all / flat[k] == (k in a segment ? the loaded word : the fill constant) for every k, '
+             'Memory_add_segment to grow the valid set by exactly the given range (or refuse an overflowing one) with sound page '
+             'fast-ranges, Memory_set_words to store exactly start+i <- v_i & mask or refuse before any store.',
         note='Unaligned ops at w=64 in hybrid/paged storage: solver does not finish (outside). The page table/cache is modelled by its '
-             'contract (mem_get_page stub) with the real page_compute_validity / page_cache_fill IR.',
+             'contract (mem_get_page stub) with the real page_compute_validity / page_cache_fill IR. Storage decision: window limit '
+             '1..8 words via the flat_max_words knob (the fill loop is unrolled), <= 3 segments, <= 2 allocated pages.',
         technique=_T_LLSX, ref='DESIGN.md 2/C07'),
     'C08': dict(
         text='Bounded symbolic verification of 31 pointer macros and mixed hex/byte sequences (read/write/xor hex and byte through a pointer, *_and_inc, vector forms, '
@@ -142,9 +147,13 @@ CLAIMED = {
         text='Bounded symbolic verification, native engine: the one-op harness of C01/C07 with every allocation allowed to fail (malloc/calloc/'
              'realloc return NULL, page allocation fails): every memory access of the IR stays inside a live object (bounds, use after free, '
              'double free are violations of the interpreter itself), reference counts balance, and a failed allocation ends the run with '
-             'MemoryError and no effect of the unfinished op.',
-        note='Heap objects are modelled per allocation; the flat array and pages are symbolic-length objects. Only the run loops and the '
-             'accessors they call are encoded (Memory construction / add_segment outside).',
+             'MemoryError and no effect of the unfinished op. The entry points that build the storage carry the same obligations with '
+             'arbitrary arguments: Memory_init on a fresh and on a live object (consistent object after a refused re-init: no NULL table '
+             'with a non-zero count, no dangling cached page), Memory_add_segment (any 64-bit start/length, table growth with a failing '
+             'realloc), Memory_set_words (any start, failing items, flat / hybrid / paged), mem_decide_storage (symbolic segments and '
+             'window, memset / memcpy ranges inside the flat block, failing malloc).',
+        note='Heap objects are modelled per allocation; the flat array and pages are symbolic-length objects. Memory_dealloc and the '
+             'Memory_run prologue are outside. A shift by >= width is LLVM poison (arbitrary value), not an immediate violation.',
         technique=_T_LLSX, ref='DESIGN.md 2/C11'),
     'C16': dict(
         text='Bounded symbolic verification: (a) the label table of the C02 programs (real pipeline, symbolic layout operands): every '
